@@ -2,13 +2,16 @@
 (* Binding B2: validates recorded executions of the real client endpoint (HippoClientSession +  *)
 (* HippoClientProtocol + Circuit, recording transport, four subscribers, virtual clock).        *)
 (* One record per driver step, logged after the event loop was pumped to quiescence:            *)
-(*  Recv  {p, rel, acks:[ids], tx, dl, fut}     datagram from the peer                          *)
+(*  Recv  {p, rel, acks:[ids], match, tx, dl, fut}  datagram from the peer (match: a data message,   *)
+(*        the name the extra subscribers asked for; else a PacketAck message)                    *)
+(*  Sub   {level, kind, tx, fut}                a further subscriber registered at that level    *)
 (*  Stray {tx, dl, fut}                         datagram from an unknown address               *)
 (*  SendRel / SendUnrel {tx, fut}               application sends                               *)
 (*  Tick  {d, tx, fut}                          clock += d ms, then Circuit.resend_unacked()    *)
 (* tx  = datagrams the endpoint emitted in this step, in order:                                  *)
 (*       [id, rel, resent, acked:[ids it acknowledges, PacketAck body and appended], peer]      *)
-(* dl  = [sess, sessAll, reg, regAll |-> number of times that subscriber was called]            *)
+(* dl  = [sess, sessAll, reg, regAll |-> number of times that subscriber was called,             *)
+(*        other, dyn |-> [sess, reg |-> <<calls of each further subscriber in registration order>>]]*)
 (* fut = [[id, "p"|"d"|"f"|"x"]..] state of the future of every send_reliable() so far          *)
 (* The packet IDs the endpoint chose are bound to the actions' id parameters; everything else   *)
 (* is computed by the specification and compared clause by clause.                              *)
@@ -43,7 +46,13 @@ ChkFut(fut) ==
     /\ \A f \in Range(fut) : f[1] \in relIssued' =>
           Chk("future is " \o f[2] \o " but must be " \o StateOf(f[1]), f[2] = StateOf(f[1]))
 ChkDl(h, n, exp) == Chk((IF n > exp THEN "dup-dispatch/" ELSE "missing-dispatch/") \o h, n = exp)
+ChkExtra(lv, dyn) ==
+    /\ Chk("extra subscribers: count", Len(dyn) = Len(subs[lv]))
+    /\ \A i \in 1..Len(subs[lv]) : i <= Len(dyn) =>
+          Chk((IF dyn[i] > out'.calls[lv][i] THEN "dup-dispatch/" ELSE "missing-dispatch/") \o lv \o "-extra-" \o subs[lv][i].k,
+              dyn[i] = out'.calls[lv][i])
 ChkDeliver(dl, exp) == /\ Chk("subscriber called for another packet", dl.other = 0)
+                       /\ ChkExtra("sess", dl.dyn.sess) /\ ChkExtra("reg", dl.dyn.reg)
                        /\ ChkDl("sess", dl.sess, exp) /\ ChkDl("sessAll", dl.sessAll, exp)
                        /\ ChkDl("reg", dl.reg, exp) /\ ChkDl("regAll", dl.regAll, exp)
 ChkIds(tx) == Chk("packet IDs strictly increasing", FreshIncreasing(tx))
@@ -55,11 +64,12 @@ TInit == Init /\ l = 1 /\ tid = -1
 TReset == /\ IsEvent("Reset") /\ tid' = Rec.tid
           /\ seen' = {} /\ rR' = <<>> /\ aR' = <<>> /\ dR' = <<>> /\ rU' = <<>> /\ dU' = <<>>
           /\ pend' = {} /\ done' = {} /\ failed' = {} /\ relIssued' = {} /\ ackedSince' = {} /\ xmits' = {}
-          /\ ids' = <<>> /\ lastId' = -1 /\ out' = NoOut
+          /\ ids' = <<>> /\ lastId' = -1 /\ subs' = [lv \in Levels |-> <<>>]
+          /\ out' = [NoOut EXCEPT !.calls = [lv \in Levels |-> <<>>]]
 
 TRecv == /\ IsEvent("Recv") /\ UNCHANGED tid
          /\ Env("dedupe window", Cardinality(seen \cup {Rec.p}) < Window)
-         /\ Recv(Rec.p, Rec.rel, Range(Rec.acks), IdParam(Rec.tx))
+         /\ Recv(Rec.p, Rec.rel, Range(Rec.acks), IdParam(Rec.tx), Rec.match)
          /\ ChkStep
          /\ ChkIds(Rec.tx)
          /\ Chk(IF Rec.rel THEN "ack-every-receipt" ELSE "no ack for unreliable", Acked(Rec.tx) = out'.acks /\ Len(Rec.tx) = Len(out'.acks))
@@ -90,7 +100,13 @@ TTick == /\ IsEvent("Tick") /\ UNCHANGED tid
          /\ ChkStep
          /\ Chk("resend exactly the due pending sends", TxSet(Rec.tx) = out'.tx /\ Len(Rec.tx) = Cardinality(out'.tx))
          /\ ChkFut(Rec.fut)
-TNext == TReset \/ TRecv \/ TStray \/ TSendRel \/ TSendUnrel \/ TTick
+TSub == /\ IsEvent("Sub") /\ UNCHANGED tid
+        /\ Env("level and kind", Rec.level \in Levels /\ Rec.kind \in Kinds)
+        /\ Subscribe(Rec.level, Rec.kind)
+        /\ ChkStep
+        /\ Chk("subscribe: nothing emitted", Rec.tx = <<>>)
+        /\ ChkFut(Rec.fut)
+TNext == TReset \/ TRecv \/ TStray \/ TSendRel \/ TSendUnrel \/ TTick \/ TSub
 TraceSpec == TInit /\ [][TNext]_tvars
 TraceAccepted == PrintT("TRACE_REACHED " \o ToString(TLCGet("stats").diameter - 1) \o " OF " \o ToString(Len(TraceLog)))
 ====
